@@ -137,82 +137,82 @@ func rulesReadNCBI(c *Ctx, r *Report, rd, ex *ssa.Function) {
 	for _, sc := range scopes {
 		s := sc.sy
 		_ = s
-	instrs(sc.fn, func(in ssa.Instruction) {
-		mu, ok := in.(*ssa.MapUpdate)
-		if !ok {
-			return
-		}
-		v := s.expr(mu.Value)
-		// value: extract:0(call:strconv.ParseFloat(<elem>, 64))
-		if v.Op != "extract:0" || len(v.Args) != 1 || !strings.HasPrefix(v.Args[0].Op, "call:strconv.ParseFloat") || len(v.Args[0].Args) != 2 {
-			return
-		}
-		elem := v.Args[0].Args[0]
-		// elem = load(index(BASE, I)) or index(BASE, I); BASE = slice(V, lo, _) or V
-		if elem.Op == "load" {
-			elem = elem.Args[0]
-		}
-		if elem.Op != "index" {
-			cellWhy = "the parsed text is not an element of the row's value list: " + elem.String()
-			return
-		}
-		base, idx := elem.Args[0], linOf(elem.Args[1])
-		if base.Op == "slice" {
-			if base.Args[2].String() != "_" {
-				cellWhy = "the value list is cut at its end: " + base.String()
+		instrs(sc.fn, func(in ssa.Instruction) {
+			mu, ok := in.(*ssa.MapUpdate)
+			if !ok {
 				return
 			}
-			if base.Args[1].String() != "_" {
-				lo := linOf(base.Args[1])
-				idx = linSub(idx, linSub(linForm{coef: map[string]int64{}}, lo)) // idx + lo
+			v := s.expr(mu.Value)
+			// value: extract:0(call:strconv.ParseFloat(<elem>, 64))
+			if v.Op != "extract:0" || len(v.Args) != 1 || !strings.HasPrefix(v.Args[0].Op, "call:strconv.ParseFloat") || len(v.Args[0].Args) != 2 {
+				return
 			}
-			base = base.Args[0]
-		}
-		// key array elements
-		ld, ok := mu.Key.(*ssa.UnOp)
-		if !ok {
-			return
-		}
-		al, ok := ld.X.(*ssa.Alloc)
-		if !ok {
-			return
-		}
-		var el [2]*Sym
-		for _, ref := range *al.Referrers() {
-			if ia, ok := ref.(*ssa.IndexAddr); ok {
-				k, _ := cInt(constVal(ia.Index))
-				for _, r2 := range *ia.Referrers() {
-					if st, ok := r2.(*ssa.Store); ok && k >= 0 && k < 2 {
-						el[k] = s.expr(st.Val)
+			elem := v.Args[0].Args[0]
+			// elem = load(index(BASE, I)) or index(BASE, I); BASE = slice(V, lo, _) or V
+			if elem.Op == "load" {
+				elem = elem.Args[0]
+			}
+			if elem.Op != "index" {
+				cellWhy = "the parsed text is not an element of the row's value list: " + elem.String()
+				return
+			}
+			base, idx := elem.Args[0], linOf(elem.Args[1])
+			if base.Op == "slice" {
+				if base.Args[2].String() != "_" {
+					cellWhy = "the value list is cut at its end: " + base.String()
+					return
+				}
+				if base.Args[1].String() != "_" {
+					lo := linOf(base.Args[1])
+					idx = linSub(idx, linSub(linForm{coef: map[string]int64{}}, lo)) // idx + lo
+				}
+				base = base.Args[0]
+			}
+			// key array elements
+			ld, ok := mu.Key.(*ssa.UnOp)
+			if !ok {
+				return
+			}
+			al, ok := ld.X.(*ssa.Alloc)
+			if !ok {
+				return
+			}
+			var el [2]*Sym
+			for _, ref := range *al.Referrers() {
+				if ia, ok := ref.(*ssa.IndexAddr); ok {
+					k, _ := cInt(constVal(ia.Index))
+					for _, r2 := range *ia.Referrers() {
+						if st, ok := r2.(*ssa.Store); ok && k >= 0 && k < 2 {
+							el[k] = s.expr(st.Val)
+						}
 					}
 				}
 			}
-		}
-		if el[0] == nil || el[1] == nil {
-			cellWhy = "the key is not a two-element array built in place"
-			return
-		}
-		// row label: extract:0(call extractSingleChar(load(index(base, 0))))
-		rowOK := el[0].Op == "extract:0" && len(el[0].Args) == 1 && strings.Contains(el[0].Args[0].Op, "call:") && len(el[0].Args[0].Args) == 1
-		if rowOK {
-			a0 := el[0].Args[0].Args[0]
-			if a0.Op == "load" {
-				a0 = a0.Args[0]
+			if el[0] == nil || el[1] == nil {
+				cellWhy = "the key is not a two-element array built in place"
+				return
 			}
-			rowOK = a0.Op == "index" && a0.Args[0].String() == base.String() && a0.Args[1].String() == "0"
-		}
-		// column label: load(index(CHARS, J)) with value index = J + 1
-		col := el[1]
-		if col.Op == "load" {
-			col = col.Args[0]
-		}
-		colOK := col.Op == "index" && linSub(idx, linOf(col.Args[1])).String() == "1"
-		if rowOK && colOK {
-			okCell = true
-		} else {
-			cellWhy = fmt.Sprintf("row label from element 0 of the same value list: %v; value index = column index + 1: %v (value %s, column %s)", rowOK, colOK, elem.String(), el[1].String())
-		}
-	})
+			// row label: extract:0(call extractSingleChar(load(index(base, 0))))
+			rowOK := el[0].Op == "extract:0" && len(el[0].Args) == 1 && strings.Contains(el[0].Args[0].Op, "call:") && len(el[0].Args[0].Args) == 1
+			if rowOK {
+				a0 := el[0].Args[0].Args[0]
+				if a0.Op == "load" {
+					a0 = a0.Args[0]
+				}
+				rowOK = a0.Op == "index" && a0.Args[0].String() == base.String() && a0.Args[1].String() == "0"
+			}
+			// column label: load(index(CHARS, J)) with value index = J + 1
+			col := el[1]
+			if col.Op == "load" {
+				col = col.Args[0]
+			}
+			colOK := col.Op == "index" && linSub(idx, linOf(col.Args[1])).String() == "1"
+			if rowOK && colOK {
+				okCell = true
+			} else {
+				cellWhy = fmt.Sprintf("row label from element 0 of the same value list: %v; value index = column index + 1: %v (value %s, column %s)", rowOK, colOK, elem.String(), el[1].String())
+			}
+		})
 	}
 	r.check(okCell, "CELL", where, "score cell", c.pos(rd.Pos()), "the score stored under {row label, column label i} is ParseFloat(value i of the row, 64)", "the stored cell is not m[{rowLabel, chars[j]}] = ParseFloat(values[j+1], 64): "+cellWhy)
 	// COMMENT-RAW
